@@ -220,6 +220,30 @@ func c15Listed(path string) bool {
 	return false
 }
 
+// c15StripRefIntegration removes the integration name from every filter_ref of the
+// tree and makes sure each still names a table and a column.
+func c15StripRefIntegration(v any) {
+	switch x := v.(type) {
+	case map[string]any:
+		if ref, ok := x["filter_ref"].(map[string]any); ok {
+			delete(ref, "integration")
+			if _, ok := ref["table"]; !ok {
+				ref["table"] = "reft"
+			}
+			if _, ok := ref["column"]; !ok {
+				ref["column"] = "addr"
+			}
+		}
+		for _, c := range x {
+			c15StripRefIntegration(c)
+		}
+	case []any:
+		for _, c := range x {
+			c15StripRefIntegration(c)
+		}
+	}
+}
+
 func deepCopy(v map[string]any) map[string]any {
 	b, _ := json.Marshal(v)
 	var out map[string]any
@@ -448,6 +472,12 @@ func TestC15_Dashboard(t *testing.T) {
 		base := c15Config(rt, url)
 		igTree := base["integrations"].([]any)[1].(map[string]any)
 		igTree["sources"] = []any{} // no task is started for it: the handler's own checks are what is observed
+		if rapid.Bool().Draw(rt, "refwithoutintegration") {
+			// a reference that names a table and a column but no integration: the lookup
+			// statement is built from the table and column whenever a table is set
+			// (dig.Filter.Accept), and only the handler's own check stands before it
+			c15StripRefIntegration(igTree)
+		}
 		hostile := c15Hostile[rapid.IntRange(0, len(c15Hostile)-1).Draw(rt, "hostile")]
 		name := fmt.Sprintf("dashinj%d", dbSeq.Add(1))
 		db := pg.NewDB(name)
